@@ -233,7 +233,11 @@ func (h *opHandler) ProcessEventBatch(ctx context.Context, req *handlerpb.Proces
 
 	// --- C03: supplied state == shadow, per key
 	given := map[string]nsState{}
-	for _, ks := range req.KeyStates {
+	// the operator builds KeyStates from a Go map: put them in key order so that
+	// which mismatch is reported first does not depend on map iteration order
+	keyStates := append([]*handlerpb.KeyState(nil), req.KeyStates...)
+	sort.SliceStable(keyStates, func(i, j int) bool { return string(keyStates[i].Key) < string(keyStates[j].Key) })
+	for _, ks := range keyStates {
 		k := string(ks.Key)
 		if _, dup := given[k]; dup {
 			c.Violate(prop+"/state-duplicate-key", "operator %s supplied two KeyStates for key %q", h.op, k)
